@@ -13,12 +13,15 @@ Keys are lower-case hex, the empty key is `-`; a pair is `<hexkey>:<value>`.
   siter | sriter | sseek <key> | sprefix <key>     (the iterator stack machine over the vectors)
   bv <bits> ...               bvbits | bvranklut | bvsellut | rank <i> | select <k> | dist <i>
   bucket <blockSize> | <pair> ... | <pair> ...
+  reload | bytes | msize      (byte layout model: marshal / unmarshal round trip, the bytes, MarshalSize)
+  blikepat <pattern>          (like dispatch of indexKVStore.FindValuesByLike)
   bget <key> | bvalues | bpairs | bsuggest <key> <limit> | blike <prefix> <pre|suf|has> <sub> | bmerge <blockSize>
 -/
 import LinVerif.Util.Proto
 import LinVerif.Model.Louds
 import LinVerif.Model.LoudsIter
 import LinVerif.Model.TrieBucket
+import LinVerif.Model.TrieWire
 import LinVerif.Generated.C20
 
 namespace LinVerif.Driver.C20
@@ -149,7 +152,15 @@ def step (st : St) (ws : List String) : St × String :=
       match build kvs with
       | some t => ({ st with tree := some t, flat := some (encode t) }, "ok")
       | none => ({ st with tree := none, flat := none }, "panic")
-  | ["reload"] => withTree st (fun _ => "ok")
+  | ["reload"] =>
+    -- Write -> UnmarshalBinary on the byte-layout model: the reloaded vectors are the written ones
+    withFlat st (fun f =>
+      let w := TrieWire.toWire f
+      let bytes := TrieWire.marshal w
+      if bytes.length != TrieWire.marshalSize w then "marshal-size-mismatch"
+      else if TrieWire.unmarshal bytes == some w then "ok" else "unmarshal-mismatch")
+  | ["bytes"] => withFlat st (fun f => showKey (TrieWire.marshal (TrieWire.toWire f)))
+  | ["msize"] => withFlat st (fun f => toString (TrieWire.marshalSize (TrieWire.toWire f)))
   | ["dims"] =>
     withFlat st (fun f => s!"height={f.height} keys={f.values.length} labels={f.labels.length} nodes={f.hasPrefix.length}")
   | ["levels"] =>
@@ -278,6 +289,10 @@ def step (st : St) (ws : List String) : St × String :=
         withBucket st (fun ts =>
           showNats (sortNats (((bucketPrefix stepLB ts pre).filter (fun kv => (likeCheck mode kv.1 subKey).getD false)).map (·.2))))
     | _, _ => (st, "bad-op")
+  | ["blikepat", pat] =>
+    match parseKey pat with
+    | none => (st, "bad-op")
+    | some like => withBucket st (fun ts => showNats (sortNats (bucketLike eon stepLB ts like)))
   | ["bmerge", bsz] =>
     match bsz.toNat?, st.bucket with
     | none, _ => (st, "bad-op")
